@@ -357,16 +357,25 @@ pub fn run_section(rep: &mut Report, cli: &Cli) {
     }
     acts.extend([Act::Adv(30), Act::Refresh, Act::Reprice]);
     let m = Liq { w, slots, acts };
+    // second start state: every operation already created (pending), so that the depth is spent on executions
+    let mut all = db.clone();
+    for i in 0..m.slots.len() {
+        let mut out = StepOut::default();
+        let st = m.step(&St { db: all.clone(), now: 1_000 }, &Act::Create(i), &mut out);
+        assert!(out.label == "ok", "start state: Create({i}) failed");
+        all = st.db;
+    }
     let start = St { db, now: 1_000 };
+    let start2 = St { db: all, now: 1_000 };
     let name = "liquidity operations: mint and burn deferred to commit";
     if let Some(rv) = &cli.replay {
         if rv["section"] == name {
-            e2::replay_into(rep, &m, &[start], rv);
+            e2::replay_into(rep, &m, &[start, start2], rv);
         }
         gmsol_programs::model::clock_verif::set_now(None);
         return;
     }
     let depth = if th { 6 } else { 4 };
-    e2::explore(rep, name, &m, vec![start], &e2::Config { depth, max_states: 2_000_000 }, json!({}));
+    e2::explore(rep, name, &m, vec![start, start2], &e2::Config { depth, max_states: 2_000_000 }, json!({}));
     gmsol_programs::model::clock_verif::set_now(None);
 }
